@@ -265,6 +265,34 @@ validation = FunctionContract(
 CONTRACTS.append(validation)
 
 
+# ------------------------------------------------------------------ do_average_bead as a whole: the two regions composed (block contracts)
+SPEC_WHOLE = dict(SPEC_DAB)
+SPEC_WHOLE.update(SPEC_VAL)
+average_whole = FunctionContract(
+    F, 'do_average_bead', 'C09', short='do_average_bead[whole]', setup=setup_dab, spec_defs=SPEC_WHOLE, spec_recs=RECS[:1],
+    spec_env=dict(PNode=PNode, Sub=Sub, AKey=AKey, Vec=Vec, TVS=TSeq(Vec), TRS=RS),
+    blocks=[BlockSpec.of(validation), BlockSpec.of(average_loop)],
+    requires=["forall(lambda i, j: implies(0 <= i and i < j and j < len(pnodes), pnodes[i] != pnodes[j]))"],      # node keys are distinct
+    axioms=lambda cx, env: [cx.eng._b(cx.eng.spec_truth(d, env)) for d in DEFS],
+    ensures=[
+        # the molecule comes back with every particle that represents atoms at the weighted mean of exactly its positioned atoms (NaN when
+        # the weights cancel), nothing else moved - and that only after the checks passed
+        PLACED.format(I='len(pnodes)'), FRAME.format(I='len(pnodes)'),
+        "forall(lambda i: implies(0 <= i and i < len(pnodes), not lacks_weight(i)))",
+        "implies(not ignore_missing_graphs, forall(lambda i: implies(0 <= i and i < len(pnodes), not no_graph(i))))",
+    ],
+    raises={
+        # a failed check is an error before anything is moved
+        'KeyError': ["exists(lambda i: 0 <= i and i < len(pnodes) and lacks_weight(i))",
+                     "forall(lambda n: (n in POS) == (n in old(POS)) and implies(n in POS, POS[n] == old(POS)[n]), PNode)"],
+        'ValueError': ["not ignore_missing_graphs and exists(lambda i: 0 <= i and i < len(pnodes) and no_graph(i))",
+                       "forall(lambda n: (n in POS) == (n in old(POS)) and implies(n in POS, POS[n] == old(POS)[n]), PNode)"],
+    },
+    modifies=['POS'],
+)
+CONTRACTS.append(average_whole)
+
+
 # ------------------------------------------------------------------ DoAverageBead.run_molecule: which weight is used
 def setup_rm(kind):
     def setup(cx):
